@@ -29,11 +29,21 @@ ASSUMPTIONS = [
 ]
 SHARDS = {"quick": 2, "thorough": 8}
 
-SHAPES = ["direct", "opt", "list", "dict", "tuple", "union_first", "union_last", "mutual"]
+SHAPES = ["direct", "opt", "list", "dict", "tuple", "union_first", "union_last", "mutual", "opt_list", "opt_dict", "union_int_list"]
+LISTLIKE = ("list", "opt_list", "union_int_list")      # the child sits in a list
+DICTLIKE = ("dict", "opt_dict")
+UNIONLIKE = ("opt", "union_first", "union_last", "opt_list", "opt_dict", "union_int_list")   # the link goes through a union
 POSITIONS = {"list": [0, 1, 2], "dict": ["", "k", "0"], "direct": [None], "opt": [None], "tuple": [None], "union_first": [None],
+             "opt_list": [0, 1], "opt_dict": ["k", ""], "union_int_list": [0, 1],
              "union_last": [None], "mutual": [None]}
 
 COUNT = [0]
+BUDGET = [None]     # deterministic work budget (leaf conversions) of the running case
+
+
+class WorkBudget(BaseException):
+    """raised by the leaf converter when a case has done far more work than any bound allows (keeps a broken tree from running for minutes)"""
+
 
 
 class Leaf:
@@ -58,6 +68,8 @@ def ensure_leaf_converter():
     @utype.register_transformer(Leaf)
     def to_leaf(transformer, data, t):
         COUNT[0] += 1
+        if BUDGET[0] is not None and COUNT[0] > BUDGET[0]:
+            raise WorkBudget()
         if isinstance(data, Leaf):
             return data
         if data == "bad":
@@ -72,6 +84,9 @@ ANN = {
     "list": ("List['N']", "utype.Field(default_factory=list)"),
     "dict": ("Dict[str, 'N']", "utype.Field(default_factory=dict)"),
     "tuple": ("Tuple[int, 'N']", "utype.Field(required=False)"),
+    "opt_list": ("Optional[List['N']]", "None"),
+    "opt_dict": ("Optional[Dict[str, 'N']]", "None"),
+    "union_int_list": ("Union[int, List['N']]", "utype.Field(default_factory=list)"),
     "union_first": ("Union['N', int]", "0"),
     "union_last": ("Union[int, 'N']", "0"),
 }
@@ -120,12 +135,12 @@ def chain(shape, D, positions, siblings=0, leaf=None, bottom_leaf=None):
         sib = {"v": 90 + level}
         if leaf is not None:
             sib["leaf"] = leaf
-        if shape == "list":
+        if shape in LISTLIKE:
             p = pos if isinstance(pos, int) else 0
             items = [dict(sib) for _ in range(max(siblings, p))]
             items.insert(min(p, len(items)), node)
             child = items
-        elif shape == "dict":
+        elif shape in DICTLIKE:
             child = {(pos if isinstance(pos, str) else "k"): node}
             for j in range(siblings):
                 child[f"s{j}"] = dict(sib)
@@ -190,9 +205,9 @@ def judge_cycle(case):
         b = {"v": 2, "leaf": "ok"}
 
         def link(parent, child):
-            if shape == "list":
+            if shape in LISTLIKE:
                 parent["child"] = [child]
-            elif shape == "dict":
+            elif shape in DICTLIKE:
                 parent["child"] = {"k": child}
             elif shape == "tuple":
                 parent["child"] = (1, child)
@@ -204,10 +219,16 @@ def judge_cycle(case):
             link(a, b)
             link(b, a)
         COUNT[0] = 0
-        out = oracle.outcome(N.__from__, a, backstop=20)
+        mult = 3 ** d if shape in UNIONLIKE else 1    # known retry factor of the union stages (KF-C18-03)
+        BUDGET[0] = 100 * ((d + 1) ** 2 + 8) * mult
+        try:
+            out = oracle.outcome(N.__from__, a, backstop=20)
+        except WorkBudget:
+            out = ("perr", None)      # cut by the harness: reported through the work bound below
+        finally:
+            BUDGET[0] = None
         w = COUNT[0]
         fails = []
-        mult = 3 ** d if shape in ("opt", "union_first", "union_last") else 1    # known retry factor of the union stages (KF-C18-03)
         if w > ((d + 1) ** 2 + 8) * mult:
             # the limit cuts a cyclic input after d levels: the work cannot exceed what d levels hold
             fails.append((f"cycle/work-goes-on-beyond-the-depth-limit/{shape}{'/collect_errors' if case.get('collect') else ''}", {"max_depth": d, "work": w, "cycle": kind}))
@@ -227,11 +248,18 @@ def judge_cost(case):
         raise HarnessError("bad cost case")
     mod, N = declare(shape, None, with_leaf=True, base=case.get("base", "Schema"))
     try:
-        x = chain(shape, D, case.get("positions") or [1 if shape == "list" else "k" if shape == "dict" else None], siblings=breadth,
+        x = chain(shape, D, case.get("positions") or [1 if shape in LISTLIKE else "k" if shape in DICTLIKE else None], siblings=breadth,
                   leaf="ok", bottom_leaf="bad" if bad else "ok")
         L = count_leaves(x)
         COUNT[0] = 0
-        out = oracle.outcome(N.__from__, x, backstop=120)
+        BUDGET[0] = max(20000, 200 * (L * L + 8))
+        try:
+            out = oracle.outcome(N.__from__, x, backstop=120)
+        except WorkBudget:
+            return {"status": "hang", "fails": [(f"cost/superpolynomial-work/{shape}/{'invalid-leaf' if bad else 'valid'}",
+                                                 {"D": D, "L": L, "work": f"> {BUDGET[0]} (cut by the harness)", "bound": L * L + 8})], "work": COUNT[0], "L": L}
+        finally:
+            BUDGET[0] = None
         w = COUNT[0]
         if out[0] in ("other", "hang"):
             if out[0] == "hang":
@@ -316,12 +344,12 @@ def campaign(ctx):
     for shape in SHAPES:
         for D in range(1, maxD + 1):
             for bad in (False, True):
-                if shape in ("union_first", "union_last", "opt") and bad and D > (8 if ctx.thorough else 7):
+                if shape in UNIONLIKE and bad and D > (8 if ctx.thorough else 7):
                     continue   # known 3**d family (KF-C18-03): deeper only costs time
                 grid.append({"part": "cost", "shape": shape, "D": D, "bad": bad, "breadth": 0})
         for D in (3, 5):
             for bad in (False, True):
-                if shape in ("list", "dict"):
+                if shape in LISTLIKE + DICTLIKE:
                     grid.append({"part": "cost", "shape": shape, "D": D, "bad": bad, "breadth": 3})
     n = 0
     for i, case in enumerate(grid):
